@@ -27,7 +27,7 @@ Cut(st, drop, keep) == SubSeq(st, CutIdx(st, drop, keep) + 1, Len(st))
 Val(bag, st, k) == IF st \in DOMAIN bag THEN bag[st][k] ELSE 0
 SameBag(b1, b2) == \A st \in (DOMAIN b1) \cup (DOMAIN b2) : \A k \in 1..NCols : Val(b1, st, k) = Val(b2, st, k)
 HasFrame(st, S) == \E i \in DOMAIN st : st[i] \in S
-NoOpts == [focus |-> {}, ignore |-> {}, si |-> NCols, rel |-> FALSE]
+NoOpts == [focus |-> {}, ignore |-> {}, hide |-> {}, show |-> {}, si |-> NCols, rel |-> FALSE]
 \* The session's profile: the merged bag keyed by the stacks AS MERGED, seen through the frame-dropping rules.
 \* (Pruning does not re-merge samples whose pruned stacks coincide, and the total adds the magnitude of every
 \* sample, so the sample granularity of the merged profile stays observable.)
@@ -36,17 +36,22 @@ NoProf == Prof(<<>>, {}, {})
 V(p, st) == Cut(st, p.drop, p.keep)
 Kept(p, o) == {st \in DOMAIN p.bag : (o.focus = {} \/ HasFrame(V(p, st), o.focus)) /\ ~HasFrame(V(p, st), o.ignore)}
 SumOver(S, f(_)) == FoldSet(LAMBDA st, acc : acc + f(st), 0, S)
-Flat(p, o, fn) == SumOver({st \in Kept(p, o) : V(p, st)[1] = fn}, LAMBDA st : p.bag[st][o.si])
-Cum(p, o, fn) == SumOver({st \in Kept(p, o) : HasFrame(V(p, st), {fn})}, LAMBDA st : p.bag[st][o.si])
+\* hide removes the frames it names, show keeps only the frames it names; focus and ignore were decided on the
+\* stack before that (Kept); a sample whose frames are all gone is removed with them (Visible)
+Shown(p, o, st) == SelectSeq(V(p, st), LAMBDA f : (o.show = {} \/ f \in o.show) /\ f \notin o.hide)
+Visible(p, o) == {st \in Kept(p, o) : Len(Shown(p, o, st)) > 0}
+Flat(p, o, fn) == SumOver({st \in Kept(p, o) : Len(Shown(p, o, st)) > 0 /\ Shown(p, o, st)[1] = fn}, LAMBDA st : p.bag[st][o.si])
+Cum(p, o, fn) == SumOver({st \in Kept(p, o) : HasFrame(Shown(p, o, st), {fn})}, LAMBDA st : p.bag[st][o.si])
 \* the total is the sum of the MAGNITUDES of the (merged) samples: with -base the differences count with their size
 Abs(x) == IF x < 0 THEN 0 - x ELSE x
-Total(p, o) == SumOver(IF o.rel THEN Kept(p, o) ELSE DOMAIN p.bag, LAMBDA st : Abs(p.bag[st][o.si]))
+Total(p, o) == SumOver(IF o.rel THEN Visible(p, o) ELSE DOMAIN p.bag, LAMBDA st : Abs(p.bag[st][o.si]))
 FnsOf(p) == UNION {{V(p, st)[i] : i \in DOMAIN V(p, st)} : st \in DOMAIN p.bag}
 TopRows(p, o) == {[fn |-> f, flat |-> Flat(p, o, f), cum |-> Cum(p, o, f)] : f \in FnsOf(p)}
 \* a traces report: the kept stacks as seen, with their value in the selected column (zero entries are not printed)
 TraceRows(p, o) ==
-  LET T == {V(p, st) : st \in Kept(p, o)}
-      W(t) == SumOver({st \in Kept(p, o) : V(p, st) = t}, LAMBDA st : p.bag[st][o.si])
+  LET K == {st \in Kept(p, o) : Len(Shown(p, o, st)) > 0}
+      T == {Shown(p, o, st) : st \in K}
+      W(t) == SumOver({st \in K : Shown(p, o, st) = t}, LAMBDA st : p.bag[st][o.si])
   IN {[stack |-> t, w |-> W(t)] : t \in {x \in T : W(x) # 0}}
 
 =============================================================================
